@@ -43,6 +43,10 @@ def gen_item(rng, last: bool, lossy: bool):
             a = a + ["~"]
     s = rwlib.rand_string(rng, alpha=a)
     n = len(s) + (rng.choice([0, 0, 1, 3]) if padded else 0)
+    if padded:
+        b = rwlib.big_size(rng)   # paddings longer than any filler an implementation may have prepared
+        if b is not None:
+            n = len(s) + b
     return (k, s, n, padded)
 
 
